@@ -73,9 +73,11 @@ def run(ctx):
         "ideal zstd: decode_all of a range either yields the content or fails; the recorded uncompressed length is compared",
         "SHA-256 collision-free on the contents that occur (hash_fixes_content); in the model the hash is an arbitrary function, universally quantified",
         "u32 arithmetic of pack sizes/offsets does not overflow (packs < 4 GiB)",
-        "the tree walk's `visited` set only suppresses repeated reads (model walks with fuel, no claim on cyclic tree graphs)",
+        "the tree walk's `visited` set only suppresses repeated reads: the model walks with fuel; the verdict is fuel independent (check_verdict_fuel_independent) and exists on tree graphs of authentic trees under the no-hash-cycle hypothesis (tree_graph_acyclic, walk_fuel_sufficient); a cyclic graph of unauthentic trees gives the model no verdict",
+        "no_hash_cycles: some rank decreases from hash(b) to every subtree id the tree b lists (a tree id is the hash of a serialisation containing its children's ids)",
+        "read-data-subset: Percentage is modelled for whole percents; the shuffle is an arbitrary permutation; IdSubSet compares the model's id number where the code takes the first four id bytes",
         "nodes other than files/directories carry no content/subtree; non-directory nodes with a `subtree` field are not modelled",
-        "index lookups among equal (type,id) keys are unspecified: theorem premise nodup_keys (evaluated on every dumped state, see coverage.nodup_keys_true); refuted without it (duplicate_keys_refuted)",
+        "index lookups among equal (type,id) keys are unspecified: the theorem holds for every answer (all copies are read since the fix); on states with duplicate keys the set of packs read depends on the answer, so verdicts are compared on duplicate-free states only (coverage.nodup_keys_true)",
         "cache and hot-store branches of check are out of scope here (C19 / C16); read_data_subset = All",
         "a snapshot counts as 'in the repository' when its file is listed in the (damaged) store; a removed snapshot file is indistinguishable from forget"]
     try:
@@ -208,7 +210,9 @@ def run(ctx):
                 if cyc != "ok":
                     # with a blob stored twice every run's index may answer with the other copy: the open finding
                     sig = "duplicate-blob-copy-unverified" if (m is not None and m.get("nodup") == "0") else None
-                    viol.append(("a full read performed as the documented cycle IdSubSet((1,m))..((m,m)) (m = %s) reports nothing in any run although the plain full check reports the damage and restore fails" % cyc.split(":", 1)[1],
+                    if sig is None and set(cyc.split(":", 1)[1].split("+")) <= {"p100", "size"}:
+                        sig = "subset-full-budget-drops-a-pack"
+                    viol.append(("a full read performed through read_data_subset (the documented cycle IdSubSet((1,m))..((m,m)) for m = 1,2,3; Percentage(100) = p100; Size >= total = size) reports nothing (missed: %s) although the plain full check reports the damage and restore fails" % cyc.split(":", 1)[1],
                                  {**wit, "cycle": cyc}, sig, False))
             if m is not None:
                 ndumped += 1
@@ -234,7 +238,7 @@ def run(ctx):
                         bump("kinds_differ")
                         if len(kd_samples) < 12: kd_samples.append({"fault": F["_"], "file": F.get("file"), "impl": sorted(ik), "model": sorted(mk)})
                 # theorem instances on the real state
-                if mclean and m["nodup"] == "1" and m["strict"] != "1":
+                if mclean and m["strict"] != "1":
                     thm_bad.append({**wit, "model": m})
                 if (not mclean) and m["correct"] == "1" and m["strict"] == "0":
                     strict_witness.append(wit)   # only the root tree is wrong, and check reports it
@@ -262,7 +266,7 @@ def run(ctx):
     for what, wit, sig, no_input in viol[:60]:
         ctx.violation(what, wit, signature=sig, no_input=no_input)
     for t in thm_bad[:5]:
-        ctx.violation("theorem instance fails on a dumped real state: model check clean and no duplicate keys, but model 'correct' is not true (extraction or driver broken)", t, no_input=True)
+        ctx.violation("theorem instance fails on a dumped real state: model check clean, but model 'correct' (through restore's own index) is not true (extraction or driver broken)", t, no_input=True)
     if mism and not [v for v in ctx.violations if not v["no_failing_input_found"]]:
         ctx.violation("correspondence broken: the extracted model of check/restore disagrees with the implementation on %d dumped states although the oracle holds" % len(mism),
                       {"correspondence": "props/C05 Model.check vs Repository::check(read_data) on dump_state", "first": mism[0], "count": len(mism)}, no_input=True)
